@@ -200,6 +200,23 @@ func findBinaryHelpers(p *core.Program) []*binaryHelper {
 			}
 			inner, ok := cc.Body[0].(*ast.TypeSwitchStmt)
 			if !ok {
+				// a one-case inner switch written as a comma-ok assertion:
+				// `if y, ok := b.(T); ok { return x op y }`
+				if is, isIf := cc.Body[0].(*ast.IfStmt); isIf && is.Else == nil {
+					if as, isAs := is.Init.(*ast.AssignStmt); isAs && len(as.Lhs) == 2 && len(as.Rhs) == 1 {
+						ta, isTA := eng.Unparen(as.Rhs[0]).(*ast.TypeAssertExpr)
+						yid, isY := as.Lhs[0].(*ast.Ident)
+						okid, isOK := as.Lhs[1].(*ast.Ident)
+						cid, isC := eng.Unparen(is.Cond).(*ast.Ident)
+						if isTA && ta.Type != nil && isY && isOK && isC && info.Uses[cid] == info.Defs[okid] {
+							ti := types.ExprString(cc.List[0])
+							tj := types.ExprString(ta.Type)
+							h.xObj[ti] = info.Implicits[cc]
+							h.cases[[2]string{ti, tj}] = &ast.CaseClause{Case: is.Pos(), List: []ast.Expr{ta.Type}, Colon: is.Body.Lbrace, Body: is.Body.List}
+							h.yObj[[2]string{ti, tj}] = info.Defs[yid]
+						}
+					}
+				}
 				continue
 			}
 			nested++
